@@ -1110,6 +1110,27 @@ def a1b(prog):
                     bad = bad or (x.get("l"), "assigns through `%s`" % short(tgt))
             if k != "call":
                 continue
+            if not x.get("own") and x.get("obj") is None and not x.get("op") and x.get("a") and str(x.get("fid") or "").endswith(")") \
+               and x.get("fn") in ("swap", "iter_swap", "exchange", "swap_ranges"):
+                # the standard functions that write what they are handed by non-const reference (a forwarding reference, as of make_unique, is a copy)
+                fid_ = str(x["fid"])
+                depth_, cur_, plist = 0, "", []
+                for ch in fid_[fid_.find("(", fid_.rfind(">") if fid_.rfind(">") > fid_.find("(") and False else 0) + 1:-1] if "(" in fid_ else "":
+                    if ch in "<(":
+                        depth_ += 1
+                    elif ch in ">)":
+                        depth_ -= 1
+                    if ch == "," and depth_ == 0:
+                        plist.append(cur_.strip())
+                        cur_ = ""
+                    else:
+                        cur_ += ch
+                if cur_.strip():
+                    plist.append(cur_.strip())
+                for pt, arg in zip(plist, x["a"]):
+                    if pt.endswith("&") and not pt.endswith("&&") and not pt.startswith("const ") and "basic_ostream" not in pt and is_rooted(arg) \
+                       and not (isinstance(arg, dict) and arg.get("k") == "ref" and arg.get("id") in {p_["id"] for p_ in f["params"]} and False):
+                        bad = bad or (x.get("l"), "passes `%s` to %s by non-const reference" % (short(arg), x.get("fn")))
             o = x.get("obj")
             if o is None and x.get("op") in ("=", "+=") and x.get("a"):
                 o = x["a"][0]
